@@ -826,6 +826,76 @@ def make_xlsx_cases(td: Path):
     return out
 
 
+CODEC_HELPERS = ("_bytes_to_base64", "_base64_to_bytes", "_bytesio_to_base64", "_base64_to_bytesio")
+
+
+def codec_ast_problems() -> tuple[list[str], list[int]]:
+    """X-tie for the codec helpers of serialization.py.  The model says: the whole content is encoded / decoded by ONE
+    base64 call (serialize uses enc(content), deser uses dec(string)).  Fail closed on anything else: a loop or
+    comprehension, more or fewer than one b64encode/b64decode call, a sized read(n), slicing, string joining, or an
+    integer constant other than 0 inside a helper.  Also returns every integer constant (> 8) of the module — literal,
+    constant-folded expression or module attribute — as boundary candidates for the payload-size generator."""
+    from sharepoint2text.parsing.extractors import serialization as S
+    tree = ast.parse(inspect.getsource(S))
+    problems, consts = [], set()
+    for n in ast.walk(tree):
+        if isinstance(n, ast.Constant) and type(n.value) is int:
+            consts.add(n.value)
+        if isinstance(n, ast.BinOp):
+            try:
+                if all(isinstance(x, (ast.Constant, ast.BinOp, ast.operator, ast.UnaryOp, ast.unaryop)) for x in ast.walk(n)):
+                    v = eval(compile(ast.Expression(n), "<const>", "eval"), {"__builtins__": {}})  # constants only
+                    if type(v) is int:
+                        consts.add(v)
+            except Exception:  # noqa
+                pass
+    for k, v in vars(S).items():
+        if type(v) is int:
+            consts.add(v)
+    funcs = {n.name: n for n in tree.body if isinstance(n, ast.FunctionDef)}
+    for name in CODEC_HELPERS:
+        fn = funcs.get(name)
+        if fn is None:
+            problems.append(f"{name} not found in serialization.py (translator out of date)")
+            continue
+        calls = [c for c in ast.walk(fn) if isinstance(c, ast.Call)]
+        b64 = [c for c in calls if isinstance(c.func, ast.Attribute) and c.func.attr in ("b64encode", "b64decode")]
+        if len(b64) != 1:
+            problems.append(f"{name}: {len(b64)} base64 calls (the model has exactly one, on the whole content)")
+        if any(isinstance(c.func, ast.Attribute) and c.func.attr.startswith(("b32", "b16", "a85", "b85", "urlsafe", "encodebytes", "decodebytes"))
+               for c in calls):
+            problems.append(f"{name}: a different codec is used")
+        for n in ast.walk(fn):
+            if isinstance(n, (ast.For, ast.While, ast.ListComp, ast.GeneratorExp, ast.SetComp, ast.DictComp)):
+                problems.append(f"{name}: contains a loop/comprehension (line {n.lineno})")
+            if isinstance(n, ast.Subscript):
+                problems.append(f"{name}: slices/indexes data (line {n.lineno})")
+            if isinstance(n, ast.Constant) and type(n.value) is int and n.value != 0:
+                problems.append(f"{name}: integer constant {n.value}")
+            if isinstance(n, ast.Name) and isinstance(n.ctx, ast.Load) and type(vars(S).get(n.id)) is int:
+                problems.append(f"{name}: uses the module constant {n.id} = {vars(S)[n.id]}")
+            if isinstance(n, ast.Call) and isinstance(n.func, ast.Attribute) and n.func.attr == "read" and (n.args or n.keywords):
+                problems.append(f"{name}: sized read() (line {n.lineno})")
+            if isinstance(n, ast.Call) and isinstance(n.func, ast.Attribute) and n.func.attr == "join":
+                problems.append(f"{name}: joins pieces (line {n.lineno})")
+            if isinstance(n, ast.Call) and isinstance(n.func, ast.Attribute) and n.func.attr in ("b64encode", "b64decode") \
+                    and (len(n.args) != 1 or n.keywords):
+                problems.append(f"{name}: base64 call with options (line {n.lineno})")
+    return sorted(set(problems)), sorted(c for c in consts if 8 < c <= 8 * 1024 * 1024)
+
+
+def boundary_sizes(consts: list[int], tier_quick: bool) -> list[int]:
+    """Payload lengths around every power of two up to 2 MiB and around every integer constant of serialization.py
+    (c-1, c, c+1, 2c-1, 2c, 2c+1, 3c+1), plus the residues mod 3 of small lengths."""
+    sizes = set(range(0, 8))
+    for k in range(6, 22):
+        sizes |= {2 ** k - 1, 2 ** k, 2 ** k + 1}
+    sizes |= {3 * 2 ** 20 + 1} if not tier_quick else set()
+    for c in consts:
+        sizes |= {c - 1, c, c + 1, 2 * c - 1, 2 * c, 2 * c + 1, 3 * c + 1}
+    return sorted(x for x in sizes if 0 <= x <= 25 * 1024 * 1024)
+
+
 def cli_ast_problems() -> list[str]:
     """X-tie for cli.py: the include_binary flag reaches every serialiser call explicitly.
     * every call of serialize_extraction / _serialize_for_json / a cli-local _serialize_* function that takes the flag
@@ -1019,11 +1089,12 @@ def run(ctx):
     reg, reg_problems = gen_registry(ctx)
 
     # ---- proofs
-    ctx.prove("C05/Props.v", ["C05/Proofs.vo", "C05/Roundtrip.vo", "C05/Tables.vo"], expected=[
+    ctx.prove("C05/Props.v", ["C05/Proofs.vo", "C05/Roundtrip.vo", "C05/Tables.vo", "C05/Base64.vo"], expected=[
         "C05_dumps_ok", "C05_roundtrip_partial", "C05_roundtrip_value", "C05_no_binary", "C05_position_restored",
         "C05_cli_shape", "C05_cli_unit_shape", "C05_markers_refuted_any_registry", "C05_xlsx_cell_json_clean",
-        "C05_cli_all_or_nothing", "C05_roundtrip_same_object", "C05_nonstring_keys_refuted"])
-    ok_inst, _ = ctx.prove("C05/Inst.v", ["Gen/C05Registry.vo", "C05/Corr.vo", "C05/Proofs.vo"], expected=[
+        "C05_cli_all_or_nothing", "C05_roundtrip_same_object", "C05_nonstring_keys_refuted",
+        "C05_base64_roundtrip_all_lengths", "C05_base64_chunks_at_multiples_of_3", "C05_base64_chunks_unaligned_refuted"])
+    ok_inst, _ = ctx.prove("C05/Inst.v", ["Gen/C05Registry.vo", "C05/Corr.vo", "C05/Proofs.vo", "C05/Base64.vo"], expected=[
         "C05_registry_wf", "C05_hints_known", "C05_defaults_ok", "C05_markers_never_confused_refuted",
         "C05_roundtrip_hyps_satisfiable"])
     if not ok_inst:
@@ -1261,6 +1332,92 @@ def run(ctx):
         ctx.finding("clean-witness-not-restored", f"the non-vacuity witness is not restored: {err}", {"instance": val_term(wc)})
 
     mark("cells+witness")
+    # ---- D2c: the codec. (i) X-tie: the helpers encode/decode the whole content in one call; (ii) the model's base64
+    # against the real library; (iii) payload LENGTHS: every carrier kind (BytesIO / bytes / bytearray fields) at
+    # lengths around every power of two up to 2 MiB and around every integer constant found in serialization.py —
+    # too large for Coq terms, so: implementation's helper == the library on the whole content (that is the model's
+    # enc), and the full to_json -> dumps -> loads -> from_json round trip restores every byte.
+    codec_problems, consts = codec_ast_problems()
+    ctx.obligation("serialization.py codec helpers: one base64 call on the whole content, no chunking (ast)",
+                   not codec_problems, "; ".join(codec_problems))
+    ctx.extra["serialization_int_constants"] = consts
+    r = ctx.rng
+    bsamples = [bytes(r.randrange(256) for _ in range(n)) for n in list(range(0, 40)) + [57, 58, 59, 76, 77, 255, 256, 257]]
+    bsamples += [bytes([v]) * n for v in (0, 255) for n in (1, 2, 3, 4)]
+    f_b64 = POOL.submit(coq_eval_shards, ctx, "b64", PRE + "From S2T Require Import C05.Base64.\n", "b64_case",
+                        [f"({nlist(b)}, {cstr(base64.b64encode(b).decode('ascii'))})" for b in bsamples], shard=40, ty="bytes * str")
+    sizes = boundary_sizes(consts, ctx.tier == "quick")
+    ctx.extra["payload_lengths_sampled"] = {"count": len(sizes), "max": max(sizes),
+                                            "rule": "0..7, 2^k-1/2^k/2^k+1 for k=6..21, and c-1,c,c+1,2c-1,2c,2c+1,3c+1 for every "
+                                                    "integer constant c (8 < c <= 8 MiB) of serialization.py; one pseudo-random "
+                                                    "payload per length and carrier"}
+    bio_cls = [(n, f.name) for n in g.names for f in dataclasses.fields(reg[n])
+               if g.hints[n].get(f.name) in (io.BytesIO, typing.Optional[io.BytesIO])]
+    byt_cls = [(n, f.name) for n in g.names for f in dataclasses.fields(reg[n])
+               if g.hints[n].get(f.name) in (bytes, typing.Optional[bytes])]
+    carriers = [("BytesIO", c, lambda b: io.BytesIO(b)) for c in bio_cls[:2]] + \
+               [("bytes", c, lambda b: b) for c in byt_cls[:1]] + [("bytearray", c, lambda b: bytearray(b)) for c in byt_cls[1:2]]
+    ctx.obligation("payload-length generator has BytesIO, bytes and bytearray carriers",
+                   {k for k, _, _ in carriers} == {"BytesIO", "bytes", "bytearray"}, str([(k, c) for k, c, _ in carriers]))
+    import random as _random
+    for n_ in sizes:
+        blob = _random.Random(f"{ctx.seed}-{n_}").randbytes(n_)
+        want_b64 = base64.b64encode(blob).decode("ascii")
+        # helper == library on the whole content (the model's enc / dec)
+        for hname, arg, expect in (("_bytes_to_base64", blob, want_b64), ("_bytesio_to_base64", io.BytesIO(blob), want_b64),
+                                   ("_base64_to_bytes", want_b64, blob), ("_base64_to_bytesio", want_b64, blob)):
+            fn = getattr(S, hname, None)
+            if fn is None:
+                continue
+            try:
+                got = fn(arg)
+                got = got.getvalue() if isinstance(got, io.BytesIO) else got
+            except Exception as e:  # noqa
+                got = repr(e)
+            ctx.case(("codec", hname, n_), n_ > 0, kind="codec-helper:" + hname)
+            if got != expect:
+                ctx.finding(f"codec-helper-differs:{hname}",
+                            f"{hname} on a payload of {n_} bytes is not base64 of the whole content "
+                            f"(got {len(got) if hasattr(got, '__len__') else got} chars/bytes, want {len(expect)})",
+                            {"payload_length": n_, "payload": f"random.Random('{ctx.seed}-{n_}').randbytes({n_})", "helper": hname})
+        for kind, (cname, fname), mk in carriers:
+            try:
+                o = g.instance(cname)
+                setattr(o, fname, mk(blob))
+                text = json.dumps(S.serialize_extraction(o))
+                y = S.deserialize_extraction(json.loads(text))
+                back = payloads(y)
+                ok = payloads(o) == back and jtext(S.serialize_extraction(y)) == text and type(y) is type(o)
+                detail = f"restored payload lengths {[len(b) for b in back][:4]}"
+            except Exception as e:  # noqa
+                ok, detail = False, repr(e)
+            ctx.case(("payload-length", kind, cname, n_), True, kind=f"payload-length:{kind}")
+            if not ok and not has_marker_key(o) and not other_leaves(o):
+                ctx.finding(f"payload-length:{kind}",
+                            f"a {kind} payload of {n_} bytes in {cname}.{fname} does not survive to_json/from_json: {detail}",
+                            {"payload_length": n_, "payload": f"random.Random('{ctx.seed}-{n_}').randbytes({n_})", "carrier": f"{cname}.{fname}",
+                             "kind": kind, "how": "o = <instance of carrier class>; o.<field> = <kind>(payload); "
+                                                  "deserialize_extraction(json.loads(json.dumps(serialize_extraction(o))))"})
+
+    def finish_b64():
+        okb, fb, logb = f_b64.result()
+        ctx.traces += len(bsamples)
+        ctx.obligation("correspondence:model base64 (b64enc/b64dec) == base64 library", okb and not fb,
+                       (f"{len(fb)} disagreements, first: {bsamples[fb[0]].hex() if fb else ''} " + logb)[:800])
+
+    # oracle self-test: the comparisons used below must see a truncated payload, a changed key type and a leaked marker
+    if "EmailAttachment" in reg:
+        a1 = reg["EmailAttachment"](filename="f", mime_type="m", data=io.BytesIO(b"0123456789"))
+        a2 = reg["EmailAttachment"](filename="f", mime_type="m", data=io.BytesIO(b"012345678"))
+        st1 = bool(same_object_views(a1, a2)) and not same_object_views(a1, copy.deepcopy(a1))
+    else:
+        st1 = True
+    st2 = typed({2020: 1}) != typed({"2020": 1}) and bool(nonstring_keys({"a": [{1: 2}]}))
+    st3 = binary_marker_paths({"a": [{"_bytes": "QQ=="}]}) == ["$.a[0]._bytes"] and not binary_marker_paths({"a": None})
+    ctx.obligation("oracle self-test (truncated payload, key type, marker leak are seen)", st1 and st2 and st3,
+                   f"payload={st1} keytype={st2} marker={st3}")
+    mark("codec+payload-lengths")
+
     # ---- D3: real extractor outputs
     results_small = []
     with tempfile.TemporaryDirectory(dir="/var/tmp") as tds:
@@ -1318,12 +1475,13 @@ def run(ctx):
                         diffs = same_object_views(o, y)
                     except Exception as e:  # noqa
                         diffs = ["from_json raises " + repr(e)]
-                    if diffs:
+                    if diffs and not (nsk and not has_marker_key(o)):   # (non-string keys: reported above, same document)
                         fk = "marker-key-in-content-dict" if has_marker_key(o) else f"roundtrip-differs:{label}"
-                    if nsk and not has_marker_key(o):
-                        continue   # reported above as non-string-dict-key with the same document
                         ctx.finding(fk, f"extraction result of {label} is not restored by from_json: {diffs}",
-                                    {**doc_replay(label, p), "diffs": diffs})
+                                    {**doc_replay(label, p), "diffs": [d[:300] for d in diffs],
+                                     "payload_sizes": [len(b) for b in payloads(o)][:20],
+                                     "how": "x = list(sharepoint2text.read_file(document))[k]; "
+                                            "ExtractionInterface.from_json(json.loads(json.dumps(x.to_json())))"})
                     jf = S.serialize_extraction(o, include_binary=False)
                     if jtext(S.serialize_extraction(null_binary(o), include_binary=True)) != jtext(jf):
                         ctx.finding(f"no-binary-differs:{label}", "include_binary=False changed more than the binary fields",
@@ -1499,6 +1657,7 @@ def run(ctx):
     finish_instances()
     finish_deser()
     finish_cells()
+    finish_b64()
     if rcases:
         okr, fr, logr = f_real.result()
         ctx.traces += len(rcases)
